@@ -33,13 +33,13 @@ def cases(tier, seed, extra=(), long=False):
         yield ("instance", {"inst": inst.as_json(), "tier": tier, "dev_bound": 2 if tier == "quick" else 3})
     # the mirror image of a parsed molecule (gen_mirror): it must generate like the molecule written in reverse
     for inst in fam:
-        if len(inst.spec["elements"]) >= 2 and inst.family in ("homo-dir", "homo-rev", "block", "end-initiated", "transitions", "handover", "branched", "ids", "role-topology", "bond-order", "alternating"):
+        if len(inst.spec["elements"]) >= 2 and inst.family in ("homo-dir", "homo-rev", "block", "end-initiated", "transitions", "handover", "branched", "ids", "role-topology", "bond-order", "alternating", "handover-details", "nonconjugate-terminals", "mixed-bond-orders"):
             if inst.family == "homo-dir" and not inst.name.endswith("|1.5"):
                 continue
             yield ("instance", {"inst": Instance(inst.name + "|mirror", inst.spec, inst.menu, inst.family + "-mirror", mirror=True).as_json(), "tier": tier})
     # the same parsed object generating every execution (history between generations of one object)
     for inst in fam:
-        if inst.family in ("end-initiated", "transitions", "branched", "handover", "block", "bond-order") or tier == "thorough":
+        if inst.family in ("end-initiated", "transitions", "branched", "handover", "block", "bond-order", "handover-details") or tier == "thorough":
             yield ("instance", {"inst": inst.as_json(), "tier": tier, "reuse": True})
 
 
